@@ -76,6 +76,13 @@ Proof.
   rewrite E in A, B. apply (pseudo_from_ne_to p m Hw Hm). rewrite <- A, <- B. reflexivity.
 Qed.
 
+(* the engine's own sort (generator values, updateSortValues without history data, stable
+   insertion sort) is one of the sort oracles the theorems quantify over *)
+Lemma chess_sort_perm prom_nq v gp st l : Permutation (chess_sort prom_nq v gp st l) l.
+Proof. unfold chess_sort. apply go_sort_perm. Qed.
+Lemma simple_sort_perm st l : Permutation (simple_sort st l) l.
+Proof. unfold simple_sort. apply go_sort_perm. Qed.
+
 (** ** the stage lists *)
 Section ODChess.
 Variable prom_nq : bool.
